@@ -969,7 +969,8 @@ fn run_inner(cfg: &Cfg) -> Report {
           "C14 duration literal beyond the representable maximum panics"
         } else if c.family == "invalid" && c.kind == "dur" && o.v != "null" {
           match c.text.as_str() {
-            "P1DT" | "PT0.S" => "C14 malformed duration text is accepted: empty time part or empty fraction",
+            "P1DT" => "C14 malformed duration text is accepted: empty time part",
+            "PT0.S" => "C14 malformed duration text is accepted: empty fraction",
             _ => c.sig,
           }
         } else if c.family == "dur:too-large" && o.v.starts_with("(ymd -") && !c.text.starts_with('-') {
@@ -1215,7 +1216,14 @@ fn roundtrip_signature(v: &str, v2: &str, s: &str) -> &'static str {
   if s.ends_with(" 46)") || s.contains(" 46 90)") || s.contains(" 46 43 ") || s.contains(" 46 45 ") || s.contains(" 46 64 ") {
     return "C14 text of a time whose fraction was rounded up to a whole second ends in a bare point";
   }
-  if mask_ns(v) == mask_ns(v2) || (v.starts_with("(dtd") && v2.starts_with("(dtd")) {
+  if v.starts_with("(dtd ") {
+    if let Ok(n) = v[5..v.len() - 1].parse::<i128>() {
+      if n.abs() / 86_400_000_000_000 > u64::MAX as i128 {
+        return "C14 text of a days and time duration of more than u64::MAX days does not read back";
+      }
+    }
+  }
+  if ns_close(v, v2, 2) {
     return "C14 fractional seconds: the f64 conversion differs from the written digits";
   }
   "C14 string(v) does not read back as an equal value"
